@@ -18,7 +18,7 @@ RULE = (
     "case = (file family register|block|section, storage text|binary, encoding in utf-8 / latin-1 / cp1252 / utf-16, "
     "content with non-ASCII text and '\\n' line ends encodable in that encoding). On a real scratch directory "
     "(outside /repo and /verif, removed afterwards): the encoded content is put on disk; File.read(path) is "
-    "compared with File.read(content) (elements and ==); the file read is written to a path, to a caller-owned "
+    "compared with File.read(content) (elements and ==); the file read is written to a path (fresh, or already holding a longer earlier output), to a caller-owned "
     "buffer and the bytes on disk, decoded with the class's declared encoding, must be exactly the in-memory output "
     "(binary storage: identical bytes); the disk round trip must equal the memory round trip. The named Boolean "
     "checks are evaluated by the driver. non-trivial = the content has a non-ASCII character or binary storage; "
@@ -86,6 +86,10 @@ def run_impl(case):
         checks["read_path_same_elements"] = e_path == e_mem
         # writing: path vs caller buffer
         dst = os.path.join(d, "out.dat")
+        if case.get("dst_exists"):
+            # read - edit - save again: the destination already holds a longer earlier output
+            with open(dst, "wb") as fh:
+                fh.write(raw + b"\n# stale tail of an earlier, longer save\n" * 3)
         f_mem.write(dst)
         buf = BytesIO() if binary else StringIO()
         f_mem.write(buf)
@@ -159,7 +163,8 @@ def random_case(rng):
     fam = rng.choice(["register", "block", "section"])
     binary = fam != "section" and rng.random() < 0.3
     enc = rng.choice(ENCODINGS)
-    case = {"family": fam, "binary": binary, "encoding": enc}
+    # half of the writes go to a path that already holds a longer, earlier output
+    case = {"family": fam, "binary": binary, "encoding": enc, "dst_exists": rng.random() < 0.5}
     if binary:
         if fam == "register":
             from props import c18
